@@ -8,9 +8,12 @@ patch=/verif/seeded/$id/patch.diff
 # a change seeded on an earlier tree whose lines a later repo fix rewrote carries a rebased copy
 [ -f /verif/seeded/$id/patch_rebased.diff ] && patch=/verif/seeded/$id/patch_rebased.diff
 [ -f $patch ] || { echo "no $patch"; exit 2; }
-[ -z "$(git -C /repo status --porcelain)" ] || { echo "/repo not clean"; exit 2; }
-git -C /repo apply $patch || exit 2
-trap 'git -C /repo checkout -- . ' EXIT
+# SEED_REPO=<scratch worktree of /repo> evaluates the change there (VERIF_REPO points the harness at it) instead of in /repo itself
+R=${SEED_REPO:-/repo}
+[ "$R" != "/repo" ] && export VERIF_REPO=$R
+[ -z "$(git -C $R status --porcelain)" ] || { echo "$R not clean"; exit 2; }
+git -C $R apply $patch || exit 2
+trap "git -C $R checkout -- . " EXIT
 cd /verif
 for c in $checks; do
   ./check $c $tier > /tmp/seedrun-$id-$c.out 2>&1; rc=$?
